@@ -347,6 +347,14 @@ PENDING_REASON = "check not built yet in this session (model and theorems planne
 
 # further additions (proof libraries written by sub-agents in the third session)
 ADDENDA2 = {
+    "C01": " THROUGH THE REGENERATED __call__ (Properties/C01_call.lean): BaseStepper_call of a one-channel order-0 stepper on the configured "
+           "shape IS ExactLinear.linStep (any symbol array), every other shape is refused; hence one call returns the superposition of the "
+           "analytic solutions for every documented polynomial operator and every real band-limited grid state; instantiated for Advection "
+           "on its regenerated constructor wiring and linear operator (vector and scalar velocity: a pure translation by t*w).",
+    "C03": " REACTION TERMS (Properties/C03_reaction.lean): the Cahn-Hilliard term b*Laplace(u^3) and both Gray-Scott channels "
+           "(f(1-u) - u v^2, -(f+k) v + u v^2) return on the retained band the band truncation of the coefficients of the documented "
+           "continuous operator applied to the continuous band-truncated fields (honest derivatives), zero outside the band, under the 1/2 "
+           "rule 4K < N, every D; also read on any finer grid.",
     "C02": " STORED COEFFICIENTS, COMPLEX SYMBOLS (Properties/C02_stored_complex.lean): on the linear test family the regenerated ETDRK-p steps "
            "with the stored contour coefficients (M=16, r=1) converge with order p up to a floor 1.7e-12 for every symbol in the closed left "
            "half-plane off the sixteen contour nodes, p=1..4, and for every purely imaginary symbol (advection, dispersion) without any node "
